@@ -1100,6 +1100,11 @@ func accessibleFrom(info *types.Info, node ast.Node, wantPkg string) error {
 			return true
 		}
 		obj := info.ObjectOf(ident)
+		if obj == nil {
+			// The blank identifier (and the symbolic variable of a type
+			// switch) denotes no object.
+			return true
+		}
 		if _, ok := obj.(*types.PkgName); ok {
 			// Local package names are fine, since we can just reimport them.
 			return true
